@@ -33,7 +33,10 @@
 //!   c01 frame <config.json> <idx>  hex and label of frame idx
 //!   c01 distinct <file.bin>...     number of distinct 64-bit values in the files
 //!   c01 probe <hex>...             decode and print everything recorded (replay)
+//!   c01 pos <vectors> <out>        position-attached records (C07): see main()
+#![recursion_limit = "256"]
 use deku::prelude::*;
+use rs1090::decode::cpr::{decode_positions, Position};
 use rs1090::decode::{Message, TimedMessage};
 use rsdriver::*;
 use serde::ser::{self, Serialize};
@@ -57,6 +60,7 @@ struct Shape {
     pins: Vec<(usize, usize, u64)>,
     free: Vec<(usize, usize)>,
     wins: Vec<usize>,
+    ctx: Vec<(usize, usize)>, // header fields varied to build context pairs (same MB, other header)
     nbytes: usize,
 }
 
@@ -82,6 +86,7 @@ fn load_shapes(path: &str) -> Vec<Shape> {
                     .map(|p| (p[0].as_u64().unwrap() as usize, p[1].as_u64().unwrap() as usize))
                     .collect(),
                 wins: v["wins"].as_array().unwrap().iter().map(|w| w.as_u64().unwrap() as usize).collect(),
+                ctx: v.get("ctx").and_then(|c| c.as_array()).map(|a| a.iter().map(|p| (p[0].as_u64().unwrap() as usize, p[1].as_u64().unwrap() as usize)).collect()).unwrap_or_default(),
                 nbytes: if df >= 16 { 14 } else { 7 },
             }
         })
@@ -162,6 +167,8 @@ struct Cfg {
     to: u64,
     hang_ms: u64,
     count_keys: Vec<String>, // keys whose distinct (key, value) leaves are counted (reporting only; empty: all)
+    ctx: bool,          // context-independence: pairs, re-decoding of a sample in other orders
+    ctx_every: u64,
     emit01: bool,
     emit07: bool,
     emit08: bool,
@@ -187,6 +194,8 @@ fn load_cfg(path: &str) -> Cfg {
         to: g("to", u64::MAX),
         hang_ms: g("hang_ms", 10000),
         count_keys: v.get("count_keys").and_then(|x| x.as_array()).map(|a| a.iter().filter_map(|k| k.as_str()).map(|k| k.to_string()).collect()).unwrap_or_default(),
+        ctx: v.get("ctx").and_then(|x| x.as_bool()).unwrap_or(false),
+        ctx_every: g("ctx_every", 16).max(1),
         emit01: v.get("emit01").and_then(|x| x.as_bool()).unwrap_or(true),
         emit07: v.get("emit07").and_then(|x| x.as_bool()).unwrap_or(true),
         emit08: v.get("emit08").and_then(|x| x.as_bool()).unwrap_or(true),
@@ -249,11 +258,29 @@ fn enumerate(cfg: &Cfg, shapes: &[Shape], f: &mut dyn FnMut(u64, &str, &str, &[u
                 }
             }
         };
+        // context pairs (shapes with ctx fields, i.e. Comm-B replies): frame A was just emitted;
+        // B has the same message field and another header field; then A again, so that both
+        // (A, B) and (B, A) are decoded consecutively
+        let ctx_fields = if cfg.ctx { s.ctx.clone() } else { vec![] };
+        let ctx_pair = |a: &[u8], fill: &str, out: &mut dyn FnMut(&[u8], &str, &mut u64), idx: &mut u64| {
+            for &(off, w) in &ctx_fields {
+                let mut v: u64 = 0;
+                for k in 0..w {
+                    v = (v << 1) | ((a[(off + k) / 8] >> (7 - (off + k) % 8)) & 1) as u64;
+                }
+                let pat: u64 = if w >= 6 { (1u64 << (w - 5)) | 8 } else { 1 };
+                let mut b = a.to_vec();
+                set_bits(&mut b, off, w, v ^ pat);
+                out(&b, &format!("{fill}.ctxB@{off}"), idx);
+                out(a, &format!("{fill}.ctxA@{off}"), idx);
+            }
+        };
         // 1. basic fills, unsealed and (where the sender computes a parity) sealed
         for (j, bg) in [Bg::Zeros, Bg::Ones, Bg::Alt(0xaa), Bg::Alt(0x55)].iter().enumerate() {
             let mut b = background(s.nbytes, *bg);
             pin(&mut b);
             out(&b, &bg_tag(*bg, j), &mut idx);
+            ctx_pair(&b, &bg_tag(*bg, j), &mut out, &mut idx);
             if sealable {
                 finish(&mut b, true);
                 out(&b, &format!("{}.sealed", bg_tag(*bg, j)), &mut idx);
@@ -266,6 +293,7 @@ fn enumerate(cfg: &Cfg, shapes: &[Shape], f: &mut dyn FnMut(u64, &str, &str, &[u
             pin(&mut b);
             finish(&mut b, sealable);
             out(&b, &format!("rand{j}{}", if sealable { ".sealed" } else { "" }), &mut idx);
+            ctx_pair(&b, &format!("rand{j}"), &mut out, &mut idx);
         }
         // 3. every free field at its extremes, the other free bits zeros / ones / random
         let mut bgs = vec![Bg::Zeros, Bg::Ones];
@@ -888,7 +916,24 @@ fn timed(m: &Message, frame: &[u8]) -> TimedMessage {
     TimedMessage { timestamp: 1.5, frame: frame.to_vec(), message: Some(m.clone()), metadata: vec![], decode_time: None }
 }
 
+struct First {
+    i: u64,
+    out: &'static str,
+    h: i64,
+    fb_out: &'static str,
+    fb_h: i64,
+}
+
+fn ctx_event(order: &str, fst: &First, now: &First, b: &[u8], prev: &str) -> Value {
+    json!({"e": "ctx", "order": order, "i": fst.i, "cls": "ctx", "hex": hex::encode(b), "prev": prev, "len": b.len(),
+           "out_first": fst.out, "h_first": fst.h, "fb_out_first": fst.fb_out, "fb_h_first": fst.fb_h,
+           "out": now.out, "h": now.h, "fb_out": now.fb_out, "fb_h": now.fb_h, "at": "", "ptxt": ""})
+}
+
 struct Sinks {
+    first: std::collections::HashMap<Vec<u8>, First>,
+    prev: String,
+    nctx: u64,
     t01: BufWriter<File>,
     t07: BufWriter<File>,
     t08: BufWriter<File>,
@@ -919,70 +964,24 @@ fn emit(w: &mut BufWriter<File>, v: &Value) {
     w.write_all(b"\n").unwrap();
 }
 
-/// Everything recorded about one input.  `probe_out`: also return the full record (replay).
-fn process(idx: u64, cls: &str, fill: &str, b: &[u8], cfg: &Cfg, sk: &mut Sinks, probe_out: Option<&mut Vec<Value>>) {
+struct C07Rec {
+    ev: Value,
+    ser: &'static str,
+    ser_t: &'static str,
+    js: String,
+    jst: String,
+    re_text: String,
+    tree: Option<J>,
+    hid_paths: Vec<String>,
+    probe_ok: bool,
+}
+
+/// What C07 records about one message `m` and the timed record `tm` holding it (`b`: the input
+/// frame).  kind "msg": a freshly decoded frame; "pos": a record that went through
+/// cpr::decode_positions (a position may have been attached).
+fn c07_record(kind: &str, idx: u64, cls: &str, b: &[u8], m: &Message, tm: &TimedMessage) -> C07Rec {
     let hexs = hex::encode(b);
-    let c1 = call_try_from(b);
-    let c2 = call_try_from(b);
-    let f1 = call_from_bytes(b);
-    let f2 = call_from_bytes(b);
-    let (mut disp, mut dbg) = ("none", "none");
-    if let Some(m) = &c1.msg {
-        let r = render(m, c1.text != DEBUG_PANICKED);
-        disp = r.0;
-        dbg = r.1;
-    }
-    let (mut fdisp, mut fdbg) = ("none", "none");
-    if let Some(m) = &f1.msg {
-        let r = render(m, f1.text != DEBUG_PANICKED);
-        fdisp = r.0;
-        fdbg = r.1;
-    }
-    let ev01 = json!({
-        "i": idx, "cls": cls, "hex": hexs, "len": b.len(), "b0": if b.is_empty() { -1 } else { b[0] as i64 },
-        "out": c1.out, "out2": c2.out, "h1": h31(&c1.text), "h2": h31(&c2.text),
-        "disp": disp, "dbg": dbg,
-        "fb_out": f1.out, "fb_out2": f2.out, "fb_h1": h31(&f1.text), "fb_h2": h31(&f2.text),
-        "fb_used": f1.used, "fb_disp": fdisp, "fb_dbg": fdbg,
-        "at": if c1.out == "panic" { c1.at.clone() } else if f1.out == "panic" { f1.at.clone() }
-              else if disp == "panic" || dbg == "panic" || fdisp == "panic" || fdbg == "panic" { last_panic() } else { String::new() },
-        "ptxt": if c1.out == "panic" { c1.text.chars().take(100).collect::<String>() } else if f1.out == "panic" { f1.text.chars().take(100).collect::<String>() } else { String::new() },
-    });
-    if cfg.emit01 || probe_out.is_some() {
-        emit(&mut sk.t01, &ev01);
-    }
-    sk.n01 += 1;
-    *sk.outcomes.entry(format!("{}/{}", c1.out, f1.out)).or_insert(0) += 1;
-    let mut rec: Vec<Value> = vec![];
-    if probe_out.is_some() {
-        rec.push(json!({"c01": ev01, "try_from": c1.text, "from_bytes": f1.text}));
-    }
-    if c1.out != "ok" && probe_out.is_none() {
-        if c1.out == "panic" && sk.samples.len() < 40 {
-            sk.samples.push(json!({"hex": hexs, "cls": cls, "fill": fill, "panic": c1.text}));
-        }
-        return;
-    }
-    let m = match &c1.msg {
-        Some(m) => m,
-        None => {
-            if let Some(po) = probe_out {
-                po.append(&mut rec);
-            }
-            return;
-        }
-    };
-    sk.accepted += 1;
-    let hb = fnv(b);
-    if sk.seen_ok.insert(hb) {
-        sk.okhash.write_all(&hb.to_le_bytes()).unwrap();
-    }
-    if !(cfg.emit07 || cfg.emit08) && probe_out.is_none() {
-        return;
-    }
-    // ---- C07: serialisation
     let (ser, js) = to_json(m);
-    let tm = timed(m, b);
     let (ser_t, jst) = to_json(&tm);
     let (lex, tree) = if ser == "ok" { lex_json(&js) } else { (Lex::default(), None) };
     let (lex_t, tree_t) = if ser_t == "ok" { lex_json(&jst) } else { (Lex::default(), None) };
@@ -1028,13 +1027,9 @@ fn process(idx: u64, cls: &str, fill: &str, b: &[u8], cfg: &Cfg, sk: &mut Sinks,
     };
     let (hid, hid_paths, probe_ok) = if ser == "ok" { probe_of(&|pr| m.serialize(pr).is_ok()) } else { (0, vec![], true) };
     let (hid_t, hid_t_paths, probe_t_ok) = if ser_t == "ok" { probe_of(&|pr| tm.serialize(pr).is_ok()) } else { (0, vec![], true) };
-    if ser != "ok" || ser_t != "ok" {
-        let key: String = (if ser != "ok" { js.clone() } else { jst.clone() }).chars().take(80).collect();
-        *sk.ser_errs.entry(key).or_insert(0) += 1;
-    }
     let long = b.len() >= 14;
     let ev07 = json!({
-        "i": idx, "cls": cls, "hex": hexs, "bytes": bytes_json(b),
+        "e": kind, "i": idx, "cls": cls, "hex": hexs, "bytes": bytes_json(b),
         "me0": if long { b[4] as i64 } else { -1 },
         "ser": ser, "ser_t": ser_t,
         "err": if ser != "ok" { js.chars().take(120).collect::<String>() } else if ser_t != "ok" { jst.chars().take(120).collect::<String>() } else { String::new() },
@@ -1051,6 +1046,99 @@ fn process(idx: u64, cls: &str, fill: &str, b: &[u8], cfg: &Cfg, sk: &mut Sinks,
         "re_out": re_out, "re_ser": re_ser, "h_t": if ser_t == "ok" { h31(&jst) } else { -1 }, "re_h": re_h,
         "h_m": if ser == "ok" { h31(&js) } else { -1 }, "re_h_m": re_h_msg,
     });
+    C07Rec { ev: ev07, ser, ser_t, js, jst, re_text, tree, hid_paths, probe_ok }
+}
+
+/// Everything recorded about one input.  `probe_out`: also return the full record (replay).
+fn process(idx: u64, cls: &str, fill: &str, b: &[u8], cfg: &Cfg, sk: &mut Sinks, probe_out: Option<&mut Vec<Value>>) {
+    let hexs = hex::encode(b);
+    let c1 = call_try_from(b);
+    let c2 = call_try_from(b);
+    let f1 = call_from_bytes(b);
+    let f2 = call_from_bytes(b);
+    let (mut disp, mut dbg) = ("none", "none");
+    if let Some(m) = &c1.msg {
+        let r = render(m, c1.text != DEBUG_PANICKED);
+        disp = r.0;
+        dbg = r.1;
+    }
+    let (mut fdisp, mut fdbg) = ("none", "none");
+    if let Some(m) = &f1.msg {
+        let r = render(m, f1.text != DEBUG_PANICKED);
+        fdisp = r.0;
+        fdbg = r.1;
+    }
+    let ev01 = json!({
+        "e": "dec", "i": idx, "cls": cls, "hex": hexs, "len": b.len(), "b0": if b.is_empty() { -1 } else { b[0] as i64 },
+        "out": c1.out, "out2": c2.out, "h1": h31(&c1.text), "h2": h31(&c2.text),
+        "disp": disp, "dbg": dbg,
+        "fb_out": f1.out, "fb_out2": f2.out, "fb_h1": h31(&f1.text), "fb_h2": h31(&f2.text),
+        "fb_used": f1.used, "fb_disp": fdisp, "fb_dbg": fdbg,
+        "at": if c1.out == "panic" { c1.at.clone() } else if f1.out == "panic" { f1.at.clone() }
+              else if disp == "panic" || dbg == "panic" || fdisp == "panic" || fdbg == "panic" { last_panic() } else { String::new() },
+        "ptxt": if c1.out == "panic" { c1.text.chars().take(100).collect::<String>() } else if f1.out == "panic" { f1.text.chars().take(100).collect::<String>() } else { String::new() },
+    });
+    if cfg.emit01 || probe_out.is_some() {
+        emit(&mut sk.t01, &ev01);
+    }
+    sk.n01 += 1;
+    *sk.outcomes.entry(format!("{}/{}", c1.out, f1.out)).or_insert(0) += 1;
+    // context independence: remember the first result of a sample of inputs (all Comm-B frames
+    // of the basic / random / pair fills, every ctx_every-th of the rest)
+    if cfg.ctx && probe_out.is_none() {
+        let commb = b.len() == 14 && matches!(b[0] >> 3, 20 | 21);
+        let plain = !(fill.starts_with("win@") || fill.contains(".len") || (fill.starts_with('f') && fill.contains('@') && !fill.contains(".ctx")));
+        if (commb && plain) || idx % cfg.ctx_every == 0 {
+            let now = First { i: idx, out: c1.out, h: h31(&c1.text), fb_out: f1.out, fb_h: h31(&f1.text) };
+            match sk.first.get(b) {
+                Some(fst) => {
+                    let ev = ctx_event("repeat", fst, &now, b, &sk.prev);
+                    if cfg.emit01 {
+                        emit(&mut sk.t01, &ev);
+                    }
+                    sk.nctx += 1;
+                }
+                None => {
+                    sk.first.insert(b.to_vec(), now);
+                }
+            }
+        }
+        sk.prev = hexs.clone();
+    }
+    let mut rec: Vec<Value> = vec![];
+    if probe_out.is_some() {
+        rec.push(json!({"c01": ev01, "try_from": c1.text, "from_bytes": f1.text}));
+    }
+    if c1.out != "ok" && probe_out.is_none() {
+        if c1.out == "panic" && sk.samples.len() < 40 {
+            sk.samples.push(json!({"hex": hexs, "cls": cls, "fill": fill, "panic": c1.text}));
+        }
+        return;
+    }
+    let m = match &c1.msg {
+        Some(m) => m,
+        None => {
+            if let Some(po) = probe_out {
+                po.append(&mut rec);
+            }
+            return;
+        }
+    };
+    sk.accepted += 1;
+    let hb = fnv(b);
+    if sk.seen_ok.insert(hb) {
+        sk.okhash.write_all(&hb.to_le_bytes()).unwrap();
+    }
+    if !(cfg.emit07 || cfg.emit08) && probe_out.is_none() {
+        return;
+    }
+    // ---- C07: serialisation
+    let tm = timed(m, b);
+    let C07Rec { ev: ev07, ser, ser_t, js, jst, re_text, tree, hid_paths, probe_ok } = c07_record("msg", idx, cls, b, m, &tm);
+    if ser != "ok" || ser_t != "ok" {
+        let key: String = (if ser != "ok" { js.clone() } else { jst.clone() }).chars().take(80).collect();
+        *sk.ser_errs.entry(key).or_insert(0) += 1;
+    }
     if cfg.emit07 || probe_out.is_some() {
         emit(&mut sk.t07, &ev07);
         sk.n07 += 1;
@@ -1146,6 +1234,9 @@ fn open(path: String) -> BufWriter<File> {
 
 fn new_sinks(out: &str) -> Sinks {
     Sinks {
+        first: std::collections::HashMap::new(),
+        prev: String::new(),
+        nctx: 0,
         t01: open(format!("{out}/c01.ndjson")),
         t07: open(format!("{out}/c07.ndjson")),
         t08: open(format!("{out}/c08.ndjson")),
@@ -1210,7 +1301,7 @@ fn main() {
             std::fs::create_dir_all(&dir).unwrap();
             let out = dir.to_str().unwrap().to_string();
             let cfg = Cfg { shapes: String::new(), out: out.clone(), seed: 0, k_random: 0, field_rand: 0, windows: false, field_lite: false, win_df: vec![], wl_every: 0,
-                            from: 0, to: 0, hang_ms: 0, count_keys: vec![], emit01: true, emit07: true, emit08: true, sample_every: 1 };
+                            from: 0, to: 0, hang_ms: 0, count_keys: vec![], ctx: false, ctx_every: 16, emit01: true, emit07: true, emit08: true, sample_every: 1 };
             let mut sk = new_sinks(&out);
             for (i, h) in args[1..].iter().enumerate() {
                 let b = hex::decode(h).expect("hex");
@@ -1220,6 +1311,63 @@ fn main() {
             }
             drop(sk);
             let _ = std::fs::remove_dir_all(&dir);
+        }
+        Some("pos") => {
+            // c01 pos <vectors.ndjson> <out.ndjson>: position-attached records (C07).  A vector is a
+            // short history of extended squitters of one aircraft (fields from Gen_PosRecords.tla)
+            // and an optional receiver reference; the frames are sealed, decoded, handed to
+            // cpr::decode_positions as TimedMessages, and every record is recorded like the
+            // single-frame records of the main pass (kind "pos").
+            let vecs = read_lines(&args[1]);
+            let mut w = open(args[2].clone());
+            let (mut n, mut with_pos, mut undecoded, mut dp_panics) = (0u64, 0u64, 0u64, 0u64);
+            let mut samples: Vec<Value> = vec![];
+            for v in &vecs {
+                let id = v["id"].as_u64().unwrap();
+                let fam = v["fam"].as_str().unwrap_or("?");
+                let reference = v["ref"].as_array().filter(|a| a.len() == 2).map(|a| Position {
+                    latitude: a[0].as_i64().unwrap() as f64 / 1000.0,
+                    longitude: a[1].as_i64().unwrap() as f64 / 1000.0,
+                });
+                let mut tms: Vec<TimedMessage> = vec![];
+                for msg in v["msgs"].as_array().unwrap() {
+                    let fields: Vec<(u32, u64)> = msg["fields"].as_array().unwrap().iter()
+                        .map(|f| (f[0].as_u64().unwrap() as u32, f[1].as_u64().unwrap())).collect();
+                    let frame = seal(&pack(&fields), 0);
+                    let message = catch_unwind(AssertUnwindSafe(|| Message::try_from(frame.as_slice()))).ok().and_then(|r| r.ok());
+                    tms.push(TimedMessage { timestamp: msg["ts"].as_i64().unwrap() as f64, frame, message, metadata: vec![], decode_time: None });
+                }
+                let dp = catch_unwind(AssertUnwindSafe(|| decode_positions(&mut tms, reference, &None)));
+                if dp.is_err() {
+                    dp_panics += 1;
+                }
+                for (k, tm) in tms.iter().enumerate() {
+                    let m = match &tm.message {
+                        Some(m) => m,
+                        None => {
+                            undecoded += 1;
+                            continue;
+                        }
+                    };
+                    let rec = c07_record("pos", id * 8 + k as u64, fam, &tm.frame, m, tm);
+                    let has_pos = rec.tree.as_ref().map(|t| get(t, "latitude").is_some()).unwrap_or(false);
+                    let mut ev = rec.ev;
+                    ev["has_pos"] = json!(has_pos);
+                    ev["dp"] = json!(if dp.is_ok() { "ok" } else { "panic" });
+                    ev["k"] = json!(k);
+                    if has_pos {
+                        with_pos += 1;
+                        if samples.len() < 4 && n % 97 == 0 {
+                            samples.push(json!({"fam": fam, "k": k, "json_timed": rec.jst}));
+                        }
+                    }
+                    emit(&mut w, &ev);
+                    n += 1;
+                }
+            }
+            w.flush().unwrap();
+            println!("{}", json!({"records": n, "with_position": with_pos, "undecoded": undecoded,
+                                   "decode_positions_panics": dp_panics, "samples": samples}));
         }
         Some("run") => {
             let cfg = load_cfg(&args[1]);
@@ -1250,6 +1398,35 @@ fn main() {
                 progress.write_all_at(&idx.to_le_bytes(), 0).unwrap();
                 process(idx, cls, fill, b, &cfg, &mut sk, None);
             });
+            // context independence, second part: the sampled inputs once more, in two other orders
+            // (sorted by message field then header, so that equal message fields are adjacent; reversed)
+            if cfg.ctx {
+                let mut keys: Vec<Vec<u8>> = sk.first.keys().cloned().collect();
+                keys.sort_by(|a, b| {
+                    let (ta, tb) = (&a[a.len().min(4)..], &b[b.len().min(4)..]);
+                    ta.cmp(tb).then_with(|| a.cmp(b))
+                });
+                for order in ["sorted", "reversed"] {
+                    let mut prev = String::new();
+                    let n = keys.len();
+                    for k in 0..n {
+                        let b = if order == "sorted" { &keys[k] } else { &keys[n - 1 - k] };
+                        let fst = &sk.first[b];
+                        since.store(t0.elapsed().as_millis() as u64, Ordering::SeqCst);
+                        cur.store(fst.i + 1, Ordering::SeqCst);
+                        progress.write_all_at(&fst.i.to_le_bytes(), 0).unwrap();
+                        let c = call_try_from(b);
+                        let f = call_from_bytes(b);
+                        let now = First { i: fst.i, out: c.out, h: h31(&c.text), fb_out: f.out, fb_h: h31(&f.text) };
+                        let ev = ctx_event(order, fst, &now, b, &prev);
+                        if cfg.emit01 {
+                            emit(&mut sk.t01, &ev);
+                        }
+                        sk.nctx += 1;
+                        prev = hex::encode(b);
+                    }
+                }
+            }
             cur.store(0, Ordering::SeqCst);
             sk.t01.flush().unwrap();
             sk.t07.flush().unwrap();
@@ -1259,7 +1436,7 @@ fn main() {
             let keys: Map<String, Value> = sk.keys.iter().map(|(k, (n, t))| (k.clone(), json!([n, t]))).collect();
             let stats = json!({
                 "total_frames": total, "from": cfg.from, "to": cfg.to.min(total),
-                "events_c01": sk.n01, "events_c07": sk.n07, "events_c08": sk.n08,
+                "events_c01": sk.n01, "events_ctx": sk.nctx, "events_c07": sk.n07, "events_c08": sk.n08,
                 "accepted": sk.accepted, "distinct_accepted_local": sk.seen_ok.len(),
                 "messages_flattened": sk.n08_msgs, "leaves_total": sk.leaves_total, "distinct_leaves_local": sk.seen_leaf.len(), "counted_leaves_local": sk.counted_leaves,
                 "distinct_structures_local": sk.seen_struct.len(), "structures": sk.structures,
@@ -1270,7 +1447,7 @@ fn main() {
             std::fs::write(format!("{}/stats.json", cfg.out), serde_json::to_string(&stats).unwrap()).unwrap();
         }
         _ => {
-            eprintln!("usage: c01 run|count|frame|distinct|probe ...");
+            eprintln!("usage: c01 run|count|frame|distinct|probe|pos ...");
             std::process::exit(2);
         }
     }
